@@ -7,7 +7,10 @@ is satisfied on that input.  `python witnesses.py` prints one line per witness a
 if any *fixed* witness fails again.  Used by ./check (corpus stage) and for the record of
 what each `fix:` commit repaired.
 """
+import os
 import sys
+
+sys.path.insert(0, os.path.dirname(os.path.abspath(__file__)))
 
 
 def _bp():
@@ -247,7 +250,39 @@ def K3():
     return ps == ps2, "%r -> %r -> %d persons" % (v, merged, len(ps2))
 
 
-ALL = [F1, F2, F3, F4, F5, F6, F7, F8, F9, F10, F11, F12, F13, F14, F15, K1, K2, K3, K4]
+def K5():
+    """C18: several $...$ spans: greedy keep_math rule"""
+    import witnesses_c18
+    return witnesses_c18.K5()
+
+
+def K6():
+    """C18: URL with % ~ & wrapped raw into \\url{}"""
+    import witnesses_c18
+    return witnesses_c18.K6()
+
+
+def F16():
+    """C18: converter exception with an empty message swallowed"""
+    import witnesses_c18
+    return witnesses_c18.K7()
+
+
+def F17():
+    """C07: SortFieldsCustomMiddleware stores its own order list in every entry's metadata"""
+    from bibtexparser.middlewares import SortFieldsCustomMiddleware
+    from bibtexparser.model import Entry, Field
+    from bibtexparser.library import Library
+    m = SortFieldsCustomMiddleware(order=("b", "a"), allow_inplace_modification=False)
+    lib1 = m.transform(Library([Entry("article", "k", [Field("a", "1"), Field("b", "2")])]))
+    lib2 = m.transform(lib1)
+    a = lib1.blocks[0].parser_metadata["sorted_fields_custom"]
+    b = lib2.blocks[0].parser_metadata["sorted_fields_custom"]
+    shared = (a is b or a is m._order) and isinstance(a, list)
+    return not shared, "output metadata list is the input's / the middleware's own list: %r" % shared
+
+
+ALL = [F1, F2, F3, F4, F5, F6, F7, F8, F9, F10, F11, F12, F13, F14, F15, F16, F17, K1, K2, K3, K4, K5, K6]
 
 if __name__ == "__main__":
     import bibtexparser
